@@ -56,6 +56,13 @@ Next == /\ Len(doc.secs) < MaxSecs
                 b \in (IF Sim THEN {RandomElement(1 .. Len(Bodies))} ELSE {((2 * n + l + doc.m) % Len(Bodies)) + 1}),
                 s \in (IF Sim THEN {RandomElement(Styles(l))} ELSE {CHOOSE x \in Styles(l) : x = (IF (n + doc.p) % 3 = 0 /\ l <= 2 THEN "setext" ELSE IF (n + l) % 2 = 0 THEN "atx" ELSE "atxc")}) :
                 doc' = [doc EXCEPT !.secs = Append(@, [lvl |-> l, t |-> t, b |-> b, style |-> IF t \in HashEnd /\ s = "atx" THEN "atxc" ELSE s])]
+\* deep outlines: every level down to 6 with k sections on each level (siblings on the whole path), and saw-tooth shapes at the bottom
+RECURSIVE Stair(_, _, _)
+Stair(l, d, k) == IF l > d THEN <<>> ELSE [j \in 1 .. k |-> l] \o Stair(l + 1, d, k)
+SecOf(lv, n) == [lvl |-> lv, t |-> ((n + lv) % Len(Titles)) + 1, b |-> ((2 * n + lv) % Len(Bodies)) + 1, style |-> IF ((n + lv) % Len(Titles)) + 1 \in HashEnd THEN "atxc" ELSE IF n % 2 = 0 THEN "atx" ELSE "atxc"]
+StairLevels == {Stair(1, d, k) : d \in 4 .. 6, k \in 1 .. 3} \cup {Stair(1, 6, 2) \o <<5, 6, 6, 4, 5, 6>>, Stair(1, 5, 1) \o <<6, 6, 6, 6, 5, 6, 3, 4, 5, 6>>, <<1, 2, 3, 4, 5, 6, 1, 2, 3, 4, 5, 6>>}
+StairDocs == {[m |-> m, p |-> 1, secs |-> [n \in 1 .. Len(ls) |-> SecOf(ls[n], n)]] : m \in {1, 2}, ls \in StairLevels}
+InitStairs == doc \in StairDocs
 \* laws of the specification: depths form a valid preorder (each item at most one deeper than its predecessor), notes partition the body
 DepthOK == LET it == Items(doc.secs, 1, <<>>) IN \A i \in 1 .. Len(it) : it[i][1] >= 1 /\ (i > 1 => it[i][1] <= it[i - 1][1] + 1)
 Partition == LET it == Items(doc.secs, 1, <<>>) IN
